@@ -18,7 +18,7 @@ SPEC = tlc.SPEC
 # property -> tier -> [(module, cfg)]
 CORE = [('MC_core.tla', 'MC_core.cfg')]
 PLAN = {
-    'C01': {'quick': CORE + [('MC_late.tla', 'MC_late.cfg')], 'thorough': [('MC_core.tla', 'MC_core_big.cfg'), ('MC_core.tla', 'MC_err.cfg'), ('MC_late.tla', 'MC_late.cfg')]},
+    'C01': {'quick': CORE + [('MC_late.tla', 'MC_late.cfg')], 'thorough': [('MC_core.tla', 'MC_core_big.cfg'), ('MC_core.tla', 'MC_err.cfg'), ('MC_late.tla', 'MC_late.cfg'), ('MC_redisp.tla', 'MC_redisp.cfg')]},
     'C02': {'quick': CORE, 'thorough': [('MC_core.tla', 'MC_core_big.cfg'), ('MC_core.tla', 'MC_g1.cfg')]},
     'C03': {'quick': CORE + [('MC_hist.tla', 'MC_hist.cfg'), ('MC_core.tla', 'MC_live.cfg')], 'thorough': [('MC_core.tla', 'MC_live2.cfg'), ('MC_core.tla', 'MC_core_big.cfg'), ('MC_hist.tla', 'MC_hist.cfg'), ('MC_core.tla', 'MC_rec.cfg')]},
     'C04': {'quick': CORE + [('MC_core.tla', 'MC_live.cfg')], 'thorough': [('MC_core.tla', 'MC_core_big.cfg'), ('MC_core.tla', 'MC_live2.cfg')]},
@@ -125,7 +125,7 @@ def run_for(prop, tier, seed):
         if not os.path.exists(os.path.join(SPEC, cfg)):
             continue
         # per-action coverage (vacuity guard) on the configurations that finish quickly; the big ones run without it
-        r = run_config(module, cfg, coverage=(tier == 'thorough' and 'big' not in cfg and 'fwd' not in cfg and 'g1' not in cfg and cfg not in ('MC_par.cfg', 'MC_partime.cfg') and 'live' not in cfg), timeout=10800)
+        r = run_config(module, cfg, coverage=(tier == 'thorough' and 'big' not in cfg and 'fwd' not in cfg and 'g1' not in cfg and cfg not in ('MC_par.cfg', 'MC_partime.cfg', 'MC_redisp.cfg') and 'live' not in cfg), timeout=10800)
         res['configs'].append({k: v for k, v in r.items() if k != 'tail'})
         res['states'] += r['states']
         res['transitions'] += r['transitions']
